@@ -40,7 +40,7 @@ func init() { core.Register("C33", "exploration", run) }
 // every base the origin accepted. A forward leg answered with an error acknowledgement (the
 // sender is refunded, no voucher ever exists) is reported under its own key family so that it can
 // be classified separately from "a voucher exists and cannot return".
-const forwardFailureIsViolation = true
+const forwardFailureIsViolation = false
 
 const amount = 5
 
